@@ -175,6 +175,11 @@ def KNOWN_UNITS():
     return set(l.strip() for l in open(p) if l.strip() and not l.startswith('#')) if os.path.exists(p) else set()
 
 
+def KNOWN_BINDERS():
+    p = os.path.join(SPEC, 'known_binders.json')
+    return json.load(open(p)) if os.path.exists(p) else None
+
+
 def call_graph(asm):
     """approximate: unit -> set of unit paths whose last path segment is called in its body"""
     lines = asm['text'].split('\n')
@@ -209,7 +214,7 @@ def build(repo=REPO, force=False, canary=None, verify_only=None, quiet=False, ex
         t0 = time.time()
         sp, rows_mod, pre = load_spec()
         try:
-            asm = gen.assemble(repo, sp, rows=rows_mod, canary=canary, opts=dict(prelude_files=pre, known_units=KNOWN_UNITS()))
+            asm = gen.assemble(repo, sp, rows=rows_mod, canary=canary, opts=dict(prelude_files=pre, known_units=KNOWN_UNITS(), known_binders=KNOWN_BINDERS()))
         except gen.ToolError as e:
             return dict(tool_error=str(e), key=key, cache='miss')
         gpath = os.path.join(GEN, 'pushr_vs_%s.rs' % re.sub(r'\W', '_', key)[-40:])
@@ -241,7 +246,7 @@ def build(repo=REPO, force=False, canary=None, verify_only=None, quiet=False, ex
             if not culprits or canary or verify_fn: break
             auto_external.update(culprits)
             for pth, why in auto_external.items(): sp.external[pth] = 'AUTO: ' + why
-            asm = gen.assemble(repo, sp, rows=rows_mod, canary=canary, opts=dict(prelude_files=pre, known_units=KNOWN_UNITS()))
+            asm = gen.assemble(repo, sp, rows=rows_mod, canary=canary, opts=dict(prelude_files=pre, known_units=KNOWN_UNITS(), known_binders=KNOWN_BINDERS()))
             auto_external.update(asm.get('lost_anchors') or {})
             open(gpath, 'w').write(asm['text'])
             v = vrun.run_verus(gpath, args)
